@@ -21,7 +21,7 @@ ASSUMPTIONS = [
 ]
 PLAN = {
     "quick": {"shards": 8, "shard_timeout": 400, "case_timeout": 25, "grammars": 160, "max_case_timeouts": 3},
-    "thorough": {"shards": 16, "shard_timeout": 3600, "case_timeout": 40, "grammars": 3000, "max_case_timeouts": 80},
+    "thorough": {"shards": 16, "shard_timeout": 3600, "case_timeout": 40, "grammars": 6000, "max_case_timeouts": 160},
 }
 THRESHOLDS = {
     "quick": {"crossover:ge": 100, "crossover:sge": 100, "crossover:dsge": 100, "crossover:stack": 50, "crossover:tree": 200, "mutate:ge": 100, "mutate:sge": 100, "mutate:dsge": 100, "mutate:stack": 50, "tree_concrete_start_crossovers": 20, "step_crossovers": 100, "step_mutations": 100, "child_differs_from_both": 200},
